@@ -6,6 +6,7 @@ import AL.Impl.Api
 import AL.Properties.C11
 import AL.Spec.X86Families
 import AL.Impl.Faults
+import AL.Impl.Cli
 import Std.Data.HashMap
 open AL AL.Impl AL.Gen
 
@@ -75,6 +76,19 @@ def parseInt (s : String) : Int :=
   | some v => v
   | none => 0
 
+def parseCliFlag (t : String) : Option Flag :=
+  match t with
+  | "nasm-mov-imm" => some .nasmMovImm | "strict-mov-imm" => some .strictMovImm | "smart-mov-imm" => some .smartMovImm
+  | "nasm-sib" => some .nasmSib | "strict-sib" => some .strictSib
+  | "nasm-sib-index-base-swap" => some .nasmSwap | "strict-sib-index-base-swap" => some .strictSwap
+  | "nasm-sib-no-base" => some .nasmNoBase | "strict-sib-no-base" => some .strictNoBase
+  | "n" => some .n | "t" => some .t | "s" => some .s | "p" => some .p | "P" => some .printfile
+  | "o" => some (.object false) | "o." => some (.object true) | "r" => some .ret
+  | _ =>
+    if t.startsWith "c=" then some (.c (parseInt (t.drop 2).toString))
+    else if t.startsWith "b=" then some (.b (parseInt (t.drop 2).toString))
+    else none
+
 def step (st : DState) (line : String) : DState × String :=
   let toks := (line.trimAscii.toString.splitOn " ").filter (· ≠ "")
   match toks with
@@ -106,6 +120,13 @@ def step (st : DState) (line : String) : DState × String :=
     (st, match AL.Spec.X86.decode (unhex hex) with
          | none => "?"
          | some d => d.render)
+  | ["CL", flags, stdin, prog, binOk] =>
+    -- C20: asmline
+    let fl := if flags == "-" then [] else (flags.splitOn ",").filterMap parseCliFlag
+    let r := cliRun fl (stdin == "1") (if prog == "missing" then none else some (unhex prog)) (binOk == "1")
+    let n := if r.a.offset > 0 then r.a.offset.toNat else 0
+    (st, toString r.exit ++ " " ++ toString r.a.offset ++ " " ++ toHex (r.a.mem.take n) ++ " " ++
+      (match r.count with | some c => toString c | none => "-"))
   | ["QM", name] => (st, AL.Spec.X86.canonMn name)
   | ["FC", ext, mallocOk, mmapOk] =>
     -- C17: asm_create_instance under a refusing OS
